@@ -357,10 +357,7 @@ def build(c, del_form=None, explicit=False):
     if explicit:
         if not u["cmd"]:
             raise NotApplicable("no command reading")
-        if c["u"] == "comment":
-            text = "![" + text.split("  #")[0] + "]  # c"
-        else:
-            text = "![" + text + "]"
+        text = explicit_text(c["u"], text)
     if spec["embed"] is not None:
         if not (u["expr"] and u["embed"]) or c["w"] != "none" or c["i"] or del_form or explicit:
             raise NotApplicable("embed binder needs a bare embeddable expression use")
@@ -440,3 +437,93 @@ TAILS = {
     "star-expr": "*a",
 }
 TAIL_ORDER = list(TAILS)
+
+
+# --------------------------------------------------------------------------------------- session histories (clause h)
+# Several inputs executed one after the other in the SAME session (same Execer, same globals /
+# locals dicts, same `builtins` module).  Between the inputs the name under test is added to /
+# removed from one of the three places a session name can live: B = the builtins module,
+# G = the session globals, L = the locals mapping passed to exec.  The change is made either by the
+# harness between two inputs (mode "h": setattr(builtins, ...), dict stores) or by an input of its
+# own (mode "s": `import builtins; builtins.n = ...`, `n = ...`, `del n`).  After every change the
+# use is submitted again; the decision must follow the bindings that exist when THAT input is
+# compiled.  The first input is always a non-trivial pure-Python warm-up (so per-session caches of
+# the Execer / transformer are populated before anything changes); first == "WC" additionally
+# submits the use while the name is still unbound (it must run as a command) before it gets bound.
+
+HIST_WARM = 'w0 = mk("w0")\nw0 -l\nlen -w0 and m\nc9 = [v9 -l for v9 in xs]\n'
+HIST_FIRST = ("W", "WC")
+HIST_MODES = ("h", "s")
+HIST_NAMES = ("n", "_")
+
+
+def histories(maxlen):
+    """all valid event sequences over +B -B +G -G +L -L (add only where absent, remove only where
+    present) up to maxlen events, shortest first."""
+    out = []
+
+    def rec(seq, state):
+        if seq:
+            out.append(tuple(seq))
+        if len(seq) == maxlen:
+            return
+        for x in "BGL":
+            if x in state:
+                rec(seq + ["-" + x], state - {x})
+            else:
+                rec(seq + ["+" + x], state | {x})
+
+    rec([], frozenset())
+    out.sort(key=lambda s: (len(s), s))
+    return out
+
+
+def explicit_text(u, text):
+    if u == "comment":
+        return "![" + text.split("  #")[0] + "]  # c"
+    return "![" + text + "]"
+
+
+def _hist_source(op, x, name, sep):
+    if x == "B":
+        return f'import builtins\nbuiltins.{name} = mk("{name}")\n' if op == "+" else f"import builtins\ndel builtins.{name}\n"
+    if x == "G" and sep:
+        return f'globals()["{name}"] = mk("{name}")\n' if op == "+" else f'del globals()["{name}"]\n'
+    return f'{name} = mk("{name}")\n' if op == "+" else f"del {name}\n"
+
+
+def hist_steps(first, mode, events, u, f="head", name="n"):
+    """-> (steps, separate_locals).  A step is ["src", text, "py"|"cmd", explicit spelling | None]
+    or ["add"|"rem", "B"|"G"|"L", name] (harness action between two inputs)."""
+    text = use_text(u, f, name)
+    cmd_ok = bool(USES[u]["cmd"]) and f == "head"
+    expl = explicit_text(u, text) + "\n" if cmd_ok else None
+    sep = any(e[1] == "L" for e in events)
+    steps = [["src", HIST_WARM, "py", None]]
+    if first == "WC":
+        if not cmd_ok:
+            raise NotApplicable("the use has no command reading to start with")
+        steps.append(["src", text + "\n", "cmd", expl])
+    state = set()
+    for ev in events:
+        op, x = ev[0], ev[1]
+        if mode == "h":
+            steps.append(["add" if op == "+" else "rem", x, name])
+        else:
+            steps.append(["src", _hist_source(op, x, name, sep), "py", None])
+        state ^= {x}
+        if state:
+            steps.append(["src", text + "\n", "py", None])
+        elif cmd_ok:
+            # unbound again: only uses with a well-defined command reading are submitted
+            steps.append(["src", text + "\n", "cmd", expl])
+    return steps, sep
+
+
+def hist_label(first, mode, events, u, f="head", name="n"):
+    s = f"hist:{first}:{mode}:{''.join(events)}:{u}"
+    if f != "head":
+        s += f":f={f}"
+    if name != "n":
+        s += f":name={name}"
+    return s
